@@ -13,8 +13,8 @@ from mc.world import session_of, World1, num_in, num_out, stored_counters, journ
 POOL = [("SRV", "CLI"), ("ACC", "INI"), ("S1", "T1"), ("EXCH", "FIRM")]
 CFG = {"S": "SRV", "T": "CLI"}
 
-SLOTS_Q = ("app", "dec", "hb", "hole", "failed", "pdn")
-SLOTS_T = ("app", "dec", "hb", "hole", "failed", "pdn", "grp", "tr")
+SLOTS_Q = ("app", "dec", "hb", "hole", "failed", "pdn", "relog")
+SLOTS_T = ("app", "dec", "hb", "hole", "failed", "pdn", "relog", "grp", "tr")
 
 
 def _mk(kind, uid):
@@ -56,7 +56,7 @@ def run_case(case):
                 if f is None:
                     return ("harness", "unparseable frame from endpoint during setup")
                 d = refs.fdict(f)
-                truth[int(d["34"])] = {"kind": kind_of_new if d["35"] not in ("A", "2") else "session", "bytes": b, "f": f, "d": d}
+                truth[int(d["34"])] = {"kind": kind_of_new if d["35"] not in ("A", "2", "5") else "session", "bytes": b, "f": f, "d": d}
             return None
         note_written("session")
         uid = 0
@@ -90,6 +90,17 @@ def run_case(case):
             elif k == "tr":
                 w.call(c.send_test_req())
                 note_written("session")
+            elif k == "relog":
+                # orderly Logout, new connection, Logon: the journal keeps a Logout and a second Logon in the range
+                from asyncfix.connection import ConnectionState
+                w.call(c.disconnect(ConnectionState.DISCONNECTED_WCONN_TODAY, logout_message="bye"))
+                w.advance(1.0)
+                note_written("session")
+                w.connect()
+                w.logon()
+                note_written("session")
+                if c.connection_state.name != "ACTIVE":
+                    return {"signature": "harness|relogon_failed", "clause": "harness", "detail": {"state": c.connection_state.name}, "replay": {"case": case}}
             else:
                 w.send(_mk(k, uid))
                 note_written({"app": "app", "grp": "app", "pdn": "app", "dec": "declined", "hb": "session"}[k])
@@ -270,10 +281,12 @@ def cases(quick):
     for role in ("acceptor", "initiator"):
         for L in lens:
             for slots in itertools.product(kinds, repeat=L):
-                if role == "initiator" and (quick or L > 3) and slots.count("app") == 0:
+                if role == "initiator" and ((quick or L > 3) and slots.count("app") == 0 or "relog" in slots):
+                    continue
+                if slots.count("relog") > 1:
                     continue
                 for awaiting in (False, True):
-                    last = 1 + L + (1 if awaiting else 0)
+                    last = 1 + L + slots.count("relog") + (1 if awaiting else 0)
                     vals = list(range(-1, last + 3))
                     if role == "initiator":
                         # the role does not enter _process_resend: reduced grid
